@@ -259,6 +259,7 @@ type fileDigest struct {
 	Path        string `yaml:"path"`
 	Size        int64  `yaml:"size"`
 	ModTime     int64  `yaml:"mtime"`
+	Hash        string `yaml:"sha256,omitempty"`
 	OverlayHash string `yaml:"overlay_hash,omitempty"`
 }
 
@@ -289,10 +290,17 @@ func digestFilesWithOverlay(paths []string, overlay map[string][]byte) ([]fileDi
 		if err != nil {
 			return nil, fmt.Errorf("stat file %q: %w", path, err)
 		}
+		// size and mtime alone miss a rewrite that preserves both (cp -p, tar x,
+		// rsync -t, two writes within one clock tick): record the content too.
+		hash, err := digestFile(path)
+		if err != nil {
+			return nil, fmt.Errorf("digest file %q: %w", path, err)
+		}
 		digests = append(digests, fileDigest{
 			Path:    path,
 			Size:    info.Size(),
 			ModTime: info.ModTime().UnixNano(),
+			Hash:    hash,
 		})
 	}
 
